@@ -431,13 +431,17 @@ theorem worker_progress {b : BState} (hb : BInv b) (hs : WSampleND b) (wf : b.g.
     | false => exact Or.inr (wuCase (by rw [hw]; rfl) hf)
     | true =>
       left
+      by_cases hov : b.g.adm.spaceOverflow = true
+      · refine ⟨{}, ?_⟩
+        simp only [stepB, workerAct, hw, hf, Bool.not_true, Bool.false_eq_true, if_false, hov, if_true]
+        exact ⟨_, rfl⟩
       by_cases hfit : b.g.adm.max - b.g.adm.used ≥ c.w
       · refine ⟨{}, ?_⟩
-        simp only [stepB, workerAct, hw, hf, Bool.not_true, Bool.false_eq_true, if_false, hfit, if_true]
+        simp only [stepB, workerAct, hw, hf, Bool.not_true, Bool.false_eq_true, if_false, hov, hfit, if_true]
         exact ⟨_, rfl⟩
       · obtain ⟨e, he⟩ := estimateO_exists b.g.lfu wf c.hash
         refine ⟨{ ({} : Oracle) with dk := b.g.lfu.dk.contains c.hash :: ({} : Oracle).dk }, ?_⟩
-        simp only [stepB, workerAct, hw, hf, Bool.not_true, Bool.false_eq_true, if_false, hfit, he {}]
+        simp only [stepB, workerAct, hw, hf, Bool.not_true, Bool.false_eq_true, if_false, hov, hfit, he {}]
         exact ⟨_, rfl⟩
   | sampleInit c space incEst =>
     left
@@ -487,7 +491,7 @@ theorem worker_progress {b : BState} (hb : BInv b) (hs : WSampleND b) (wf : b.g.
       left
       refine ⟨{}, ?_⟩
       simp only [stepB, workerAct, hw, hf, Bool.not_true, Bool.false_eq_true, if_false]
-      exact ⟨_, rfl⟩
+      split <;> exact ⟨_, rfl⟩
   | emptySpace c =>
     cases hf : wuFree b .worker with
     | false => exact Or.inr (wuCase (by rw [hw]; rfl) hf)
@@ -495,7 +499,9 @@ theorem worker_progress {b : BState} (hb : BInv b) (hs : WSampleND b) (wf : b.g.
       left
       refine ⟨{}, ?_⟩
       simp only [stepB, workerAct, hw, hf, Bool.not_true, Bool.false_eq_true, if_false]
-      split <;> exact ⟨_, rfl⟩
+      split
+      · exact ⟨_, rfl⟩
+      · split <;> exact ⟨_, rfl⟩
   | insert c =>
     left
     refine ⟨{}, ?_⟩
